@@ -879,3 +879,66 @@ M("c13-revert-now-init", "C13", "m3/reporter.go",
   "	r.now.Store(time.Now().UnixNano())\n\n	internalTags", "	internalTags", expect="O5 clock-init")
 M("c13-close-no-wait", "C13", "m3/reporter.go",
   "	close(r.metCh)\n	r.wg.Wait()\n", "	close(r.metCh)\n	go r.wg.Wait()\n", expect="O3 close-drains")
+
+# ---------------------------------------------------------------- C12 M3 packet size
+M("c12-no-charge", "C12", "m3/reporter.go",
+  "		mets = append(mets, m)\n		bytes += smet.size\n", "		mets = append(mets, m)\n", expect="batching")
+M("c12-lt-for-gt", "C12", "m3/reporter.go",
+  "		if flush || bytes+smet.size > r.freeBytes {", "		if flush || bytes+smet.size < r.freeBytes {", expect="batching")
+M("c12-no-overflow-test", "C12", "m3/reporter.go",
+  "		if flush || bytes+smet.size > r.freeBytes {", "		if flush {", expect="batching")
+M("c12-reset-without-flush", "C12", "m3/reporter.go",
+  """		if !smet.set {
+			continue
+		}
+""", """		if !smet.set {
+			bytes = 0
+			continue
+		}
+""", expect="batching")
+M("c12-charge-half", "C12", "m3/reporter.go",
+  "		bytes += smet.size\n", "		bytes += smet.size / 2\n", expect="batching")
+M("c12-size-zero", "C12", "m3/reporter.go",
+  """	return cachedMetric{
+		metric:   gauge,
+		reporter: r,
+		size:     size,
+	}""", """	return cachedMetric{
+		metric:   gauge,
+		reporter: r,
+		size:     size / 2,
+	}""", expect="O2 size-provenance")
+M("c12-timestamp-placeholder-zero", "C12", "m3/reporter.go",
+  "		Timestamp: _maxInt64,", "		Timestamp: 0,", expect="O3 max-placeholder")
+M("c12-gauge-template-as-counter", "C12", "m3/reporter.go",
+  "		gauge = r.newMetric(name, tags, gaugeType)", "		gauge = r.newMetric(name, tags, counterType)", expect="O3 max-placeholder")
+M("c12-count-placeholder-one", "C12", "m3/reporter.go",
+  "		m.Value.Count = _maxInt64", "		m.Value.Count = 1", expect="O3 max-placeholder")
+M("c12-revert-envelope", "C12", "m3/reporter.go",
+  """	calcClient := m3thrift.NewM3ClientProtocol(proto.Transport(), proto, proto)
+	calcClient.SeqId = math.MaxInt32 - 1
+	if err := calcClient.EmitMetricBatchV2(batch); err != nil {""", """	if err := batch.Write(proto); err != nil {""", expect="O4a envelope")
+M("c12-seqid-zero", "C12", "m3/reporter.go",
+  "	calcClient.SeqId = math.MaxInt32 - 1\n", "", expect="O4a envelope")
+M("c12-overhead-constant-zero", "C12", "m3/reporter.go",
+  "	_emitMetricBatchOverhead    = 5", "	_emitMetricBatchOverhead    = 0", expect="O4a envelope")
+M("c12-bucket-sized-without-tags", "C12", "m3/reporter.go",
+  """		sized.Tags = append(
+			append(make([]m3thrift.MetricTag, 0, len(mtags)+2), mtags...),
+			m3thrift.MetricTag{Name: r.bucketIDTagName, Value: hbucket.bucketID},
+			m3thrift.MetricTag{Name: r.bucketTagName, Value: hbucket.bucket},
+		)""", """		sized.Tags = append(
+			append(make([]m3thrift.MetricTag, 0, len(mtags)+2), mtags...),
+			m3thrift.MetricTag{Name: r.bucketIDTagName, Value: hbucket.bucketID},
+		)""", expect="O4b bucket-tags")
+M("c12-overhead-not-subtracted", "C12", "m3/reporter.go",
+  "		freeBytes        = opts.MaxPacketSizeBytes - numOverheadBytes", "		freeBytes        = opts.MaxPacketSizeBytes", expect="O5 free-bytes")
+M("c12-accept-negative-free", "C12", "m3/reporter.go",
+  """	if freeBytes <= 0 {
+		return nil, errCommonTagSize
+	}
+""", "", expect="O5 free-bytes")
+B("c12-benign-geq", "C12", "m3/reporter.go",
+  "		if flush || bytes+smet.size > r.freeBytes {", "		if flush || bytes+smet.size >= r.freeBytes {")
+B("c12-benign-no-reset", "C12", "m3/reporter.go",
+  "			mets = r.flush(mets)\n			bytes = 0\n", "			mets = r.flush(mets)\n")
